@@ -98,7 +98,138 @@ func factsC19(r *Repo) []Fact {
 	} else {
 		out = append(out, unknownFact("closesNonDataValues", "Bool", "false", "compose/graph_manager.go", "updateValues not found"))
 	}
+	out = append(out, factsC19Merge(r)...)
 	return out
+}
+
+// the merged reader (schema/stream.go multiStreamReader): the shape of the loop in `close`
+// (which sources get the closeRecv signal) and of the bookkeeping in `recv` (a source found
+// closed is dropped from chosenList). Range variables are renamed K (key) and V (value).
+func factsC19Merge(r *Repo) []Fact {
+	sp := r.Pkg("schema")
+	var out []Fact
+	where := "schema/stream.go multiStreamReader.close: range <X>: <receiver>.closeRecv()"
+	cfd, _ := sp.Func("multiStreamReader", "close")
+	if cfd == nil || cfd.Body == nil {
+		out = append(out, unknownFact("mergeCloseLoop", "String", "\"\"", where, "multiStreamReader.close not found"))
+	} else {
+		loop := "?"
+		if len(cfd.Body.List) == 1 {
+			if rs, ok := cfd.Body.List[0].(*ast.RangeStmt); ok && len(rs.Body.List) == 1 {
+				ren := map[string]string{}
+				if id, ok := rs.Key.(*ast.Ident); ok && id.Name != "_" {
+					ren[id.Name] = "K"
+				}
+				if id, ok := rs.Value.(*ast.Ident); ok && id.Name != "_" {
+					ren[id.Name] = "V"
+				}
+				if es, ok := rs.Body.List[0].(*ast.ExprStmt); ok {
+					if c, ok := es.X.(*ast.CallExpr); ok && len(c.Args) == 0 {
+						if sel, ok := c.Fun.(*ast.SelectorExpr); ok {
+							loop = "range " + exprString(rs.X) + ": " + c19Renamed(sel.X, ren) + "." + sel.Sel.Name + "()"
+						}
+					}
+				}
+			}
+		}
+		// "?" (any other body: several statements, conditions, ...) is a value no theorem accepts
+		out = append(out, Fact{Name: "mergeCloseLoop", Type: "String", Value: leanStr(loop), Where: where})
+	}
+	whereR := "schema/stream.go multiStreamReader.recv: if <cond> { msr.chosenList = <expr> } inside a range over msr.chosenList"
+	rfd, _ := sp.Func("multiStreamReader", "recv")
+	if rfd == nil || rfd.Body == nil {
+		out = append(out, unknownFact("mergeRecvDrop", "String", "\"\"", whereR, "multiStreamReader.recv not found"))
+	} else {
+		drop := "?"
+		n := 0
+		ast.Inspect(rfd.Body, func(x ast.Node) bool {
+			rs, ok := x.(*ast.RangeStmt)
+			if !ok || exprString(rs.X) != "msr.chosenList" {
+				return true
+			}
+			ren := map[string]string{}
+			if id, ok := rs.Key.(*ast.Ident); ok && id.Name != "_" {
+				ren[id.Name] = "K"
+			}
+			if id, ok := rs.Value.(*ast.Ident); ok && id.Name != "_" {
+				ren[id.Name] = "V"
+			}
+			for _, st := range rs.Body.List {
+				is, ok := st.(*ast.IfStmt)
+				if !ok || is.Init != nil || is.Else != nil {
+					continue
+				}
+				for _, bs := range is.Body.List {
+					if as, ok := bs.(*ast.AssignStmt); ok && len(as.Lhs) == 1 && len(as.Rhs) == 1 && exprString(as.Lhs[0]) == "msr.chosenList" {
+						n++
+						drop = "if " + c19Renamed(is.Cond, ren) + ": " + c19Renamed(as.Rhs[0], ren)
+					}
+				}
+			}
+			return true
+		})
+		if n != 1 {
+			drop = "?"
+		}
+		// every assignment to msr.chosenList in recv must be that one
+		assigns := 0
+		ast.Inspect(rfd.Body, func(x ast.Node) bool {
+			if as, ok := x.(*ast.AssignStmt); ok {
+				for _, l := range as.Lhs {
+					if exprString(l) == "msr.chosenList" {
+						assigns++
+					}
+				}
+			}
+			return true
+		})
+		if assigns != 1 {
+			drop = "?"
+		}
+		out = append(out, Fact{Name: "mergeRecvDrop", Type: "String", Value: leanStr(drop), Where: whereR})
+	}
+	return out
+}
+
+// c19Renamed renders an expression like exprString, with the identifiers in ren replaced.
+func c19Renamed(e ast.Expr, ren map[string]string) string {
+	switch v := e.(type) {
+	case *ast.Ident:
+		if n, ok := ren[v.Name]; ok {
+			return n
+		}
+		return v.Name
+	case *ast.SelectorExpr:
+		return c19Renamed(v.X, ren) + "." + v.Sel.Name
+	case *ast.IndexExpr:
+		return c19Renamed(v.X, ren) + "[" + c19Renamed(v.Index, ren) + "]"
+	case *ast.BinaryExpr:
+		return c19Renamed(v.X, ren) + v.Op.String() + c19Renamed(v.Y, ren)
+	case *ast.ParenExpr:
+		return "(" + c19Renamed(v.X, ren) + ")"
+	case *ast.BasicLit:
+		return v.Value
+	case *ast.SliceExpr:
+		lo, hi := "", ""
+		if v.Low != nil {
+			lo = c19Renamed(v.Low, ren)
+		}
+		if v.High != nil {
+			hi = c19Renamed(v.High, ren)
+		}
+		return c19Renamed(v.X, ren) + "[" + lo + ":" + hi + "]"
+	case *ast.CallExpr:
+		var as []string
+		for _, a := range v.Args {
+			as = append(as, c19Renamed(a, ren))
+		}
+		dots := ""
+		if v.Ellipsis.IsValid() {
+			dots = "..."
+		}
+		return c19Renamed(v.Fun, ren) + "(" + strings.Join(as, ",") + dots + ")"
+	}
+	return "?"
 }
 
 func containsMethodCall(n ast.Node, method string) bool {
